@@ -700,6 +700,21 @@ impl<'tcx> Cx<'tcx> {
                                         _ => "other",
                                     };
                                     kv.push(("rk", esc(rk)));
+                                    // the `?` operator on Result / Option: the two trait methods it expands to are
+                                    // exported like the whitelisted combinators
+                                    {
+                                        let rp = self.path(rdid);
+                                        if !rdid.is_local() && tcx.is_mir_available(rdid)
+                                            && (rp.starts_with("<std::result::Result<") || rp.starts_with("<std::option::Option<")
+                                                || rp.starts_with("<core::result::Result<") || rp.starts_with("<core::option::Option<"))
+                                            && (rp.ends_with("::Try>::branch") || rp.ends_with(">::from_residual") || rp.ends_with("::Try>::from_output"))
+                                        {
+                                            let mut w = self.extern_wanted.borrow_mut();
+                                            if !w.contains(&rdid) {
+                                                w.push(rdid);
+                                            }
+                                        }
+                                    }
                                     kv.push(("resolved", esc(&self.path(rdid))));
                                     kv.push(("resolved_local", jbool(rdid.is_local())));
                                 }
